@@ -49,6 +49,12 @@ CLAIMS = {
     'C14': dict(tech=TECH_VK, ref='4 C14',
                 text='Decision list order proved in Verus against the RFC 8264 section 8 list over table predicates; every table predicate proved equal to its UCD 6.3.0 set by Kani for all 2^32 values; class relation lemma; non-scalars never valid.',
                 note='has_compat == (NFKC(cp) != cp) is not deductive here; oracle parser trusted.'),
+    'C15': dict(tech=TECH_VK, ref='4 C15',
+                text='The in-memory table algorithms proved for every well-formed input of any size: get_codepoints_vector (set -> sorted merged ranges: well-formed and denoting exactly the set), UnassignedTableGen::process_entry (searchable table covering exactly the gaps), BidiClassGen::compress_into_ranges (well-formed table denoting exactly the (code point, class) relation of the rows). End-to-end files->tables->lookup for the two pinned data sets by the Kani table harnesses.',
+                note='ucd-parse line parsing, regex, file I/O and the format!-based emission are trusted; ucd_parse::Codepoint/CodepointRange/Codepoints are a model of the dependency types; HashSet iteration + sort assumed to give the ascending elements; UnicodeData::parse folding and WidthMappingTableGen are not under contract (covered only end-to-end for the pinned data).'),
+    'C08': dict(tech=TECH_VK, ref='4 C08',
+                text='Nickname: proved (lemma over the stabilize + nick_step contracts) that every accepted result is a fixed point, re-validated by FreeformClass, free of DISALLOWED/UNASSIGNED code points and re-enforced unchanged. Usernames/OpaqueString: validation-precedes-mapping is proved as part of the pipeline contracts; the per-code-point lemma "lowercase of a valid character stays non-forbidden" is evaluated exhaustively over all scalar values on the real code (listed known finding: Cherokee U+13A0..U+13F4); the NFC half rests on named unchecked axioms.',
+                note='NOT fully decided: the three algebraic facts about the external normaliser (idempotent, preserves validity, introduces no mappable character) are assumptions no contract on precis code can discharge; bounded corpus search is a stand-in and is labelled so.'),
     'C16': dict(tech=TECH_V, ref='4 C16',
                 text='Sequential half only: every operation has a functional postcondition over the argument contents (not over self or history); the PrecisFastInvocation functions are proved equal to the instance specs.',
                 note='no claim about thread interleavings or first-use races of lazy_static (outside this technique).'),
@@ -60,10 +66,7 @@ CLAIMS = {
 NOT_APPLICABLE = {
     'C17': 'the deciding logic is regex captures, ucd_parse::Codepoint::from_str and BufReader::read_line: outside both verifiers\' reach; assuming their contracts would assume the property (DESIGN.md C17)',
 }
-NOT_BUILT = {
-    'C08': 'not built yet in this session state (Nickname half is covered by lemma_nick_enforce_stable under C06); see DESIGN.md',
-    'C15': 'not built yet (generator unit)',
-}
+NOT_BUILT = {}
 
 
 def main():
